@@ -73,6 +73,7 @@ type PkgContracts struct {
 	Ghosts   map[string]*GhostFunc
 	Axioms   []*Clause
 	Globals  []*Clause
+	Initials []*Clause // `initial[Cxx] X.f == c`: like `global`, but checked against the package-level initialiser
 	Guarded  []*GuardDecl
 	LockInvs []*LockInv
 	Closed   map[string]bool
@@ -620,6 +621,17 @@ func ParseContracts(dir, pkgPath string) (*PkgContracts, error) {
 			if err != nil {
 				return nil, err
 			}
+			pc.Globals = append(pc.Globals, c)
+			cur = nil
+		case "initial":
+			// initial[Cxx] <package var>[.field...] == <constant expression>: the value the variable is
+			// initialised with (and that no non-test code reassigns); proved by evaluating the declaration,
+			// then available to every VC of the package like a `global` fact.
+			c, err := mkClause(kw, props, rest, l.no)
+			if err != nil {
+				return nil, err
+			}
+			pc.Initials = append(pc.Initials, c)
 			pc.Globals = append(pc.Globals, c)
 			cur = nil
 		case "guarded":
